@@ -13,3 +13,11 @@ open ZCV.Props.C03
 #print axioms C03_bad_line_breaks
 #print axioms C03_closer_ok_iff_innermost
 #print axioms C03_unclosed_shape
+#print axioms C03_code_handle_key_value_eq
+#print axioms C03_code_handle_directive_eq
+#print axioms C03_code_keyvalue_spec
+#print axioms C03_code_keyvalue_lineShape
+#print axioms C03_code_directive_lineShape
+#print axioms C03_code_toSpec_forgetTag
+#print axioms C03_code_directive_classify
+#print axioms C03_code_keyvalue_classify
